@@ -754,6 +754,14 @@ def _collect_loop(st: ast.For, out: list[ast.stmt]) -> bool:
     if len(body) == 1 and isinstance(body[0], ast.If) and not body[0].orelse:
         flt = body[0].test
         body = list(body[0].body)
+    elif len(body) >= 2 and isinstance(body[0], ast.If) and not body[0].orelse and len(body[0].body) == 1 and isinstance(body[0].body[0], ast.Continue):
+        # `if skip: continue` in front of the fill is the filter `not skip`
+        t_ = body[0].test
+        flt = t_.operand if isinstance(t_, ast.UnaryOp) and isinstance(t_.op, ast.Not) else ast.UnaryOp(op=ast.Not(), operand=t_)
+        if isinstance(t_, ast.Compare) and len(t_.ops) == 1 and isinstance(t_.ops[0], (ast.NotIn, ast.In, ast.Eq, ast.NotEq, ast.Is, ast.IsNot)):
+            inv = {ast.NotIn: ast.In, ast.In: ast.NotIn, ast.Eq: ast.NotEq, ast.NotEq: ast.Eq, ast.Is: ast.IsNot, ast.IsNot: ast.Is}[type(t_.ops[0])]
+            flt = ast.Compare(left=t_.left, ops=[inv()], comparators=t_.comparators)
+        body = body[1:]
     temps = {}
     fills: list[tuple[str, str, ast.AST, ast.AST | None]] = []   # (container, kind, value, key)
     for b in body:
